@@ -3,7 +3,7 @@ import TunnoxModel.Spec.C12
 /-!
 Line protocol for C12.
 
-  tcp A <eof|err> <fused 0|1> <wfail n|-> <closeOnTail 0|1> <k> <bytes>*k  B … (same) …  s <schedule over a,b,A,B,x,y | ->
+  tcp A [<kind cw|same|split|none>] <eof|err> <fused 0|1> <wfail n|-> <closeOnTail 0|1> <k> <bytes>*k  B … (same) …  s <schedule over a,b,A,B,x,y | ->
   udp U <eof|err|hold> <k> (<bytes>|t)*k  T <eof|err|hold> <fused> tds <k> <bytes>*k cut <n> junk <bytes> ch <k> <size>*k  s <schedule over u,t,U,T,w,v | ->
   (capital = the Write issued by this step stays in progress; x/y resp. w/v = it completes)
 
@@ -51,7 +51,10 @@ def parseBytesN : Nat → List String → Option (List Bytes × List String)
     pure (b :: r, ts')
   | _, _ => none
 
-def parseEP : List String → Option (EP × List String)
+def kindOf : String → Option Kind
+  | "cw" => some .cw | "same" => some .same | "split" => some .split | "none" => some .none | _ => none
+
+def parseEPk (kind : Kind) : List String → Option (EP × List String)
   | tl :: fu :: wf :: cot :: k :: ts => do
     let tail ← tailOfString tl
     let fused ← bitOf fu
@@ -59,8 +62,16 @@ def parseEP : List String → Option (EP × List String)
     let cot ← bitOf cot
     let k ← k.toNat?
     let (rs, ts') ← parseBytesN k ts
-    pure (⟨rs, tail, fused, wfail, cot⟩, ts')
+    pure (⟨rs, tail, fused, wfail, cot, kind⟩, ts')
   | _ => none
+
+/-- `[<kind>] <tail> <fused> <wfail> <closeOnTail> <k> <bytes>*k`; the kind defaults to `cw`. -/
+def parseEP : List String → Option (EP × List String)
+  | t :: ts =>
+    match kindOf t with
+    | some k => parseEPk k ts
+    | none => parseEPk .cw (t :: ts)
+  | [] => none
 
 def tcpSched (s : String) : Option (List TTok) :=
   if s == "-" then some [] else
@@ -170,7 +181,7 @@ def runModel (ts : List String) : String :=
   match ts with
   | "tcp" :: _ =>
     match parseTcp ts with
-    | some c => tcpObsStr (tcpObs (tcpRun c.a c.b (tcpComplete c.a c.b c.sched)))
+    | some c => tcpObsStr (tcpObs c.a c.b (tcpRun c.a c.b (tcpComplete c.a c.b c.sched)))
     | none => "bad-case"
   | "udp" :: _ =>
     match parseUdp ts with
